@@ -10,6 +10,15 @@
     convert_polarized_state`                                           → `labelTurns`, `jones`, `scanMode`,
                                                                          `modeBlock`, `prepMatrix`, `spatialInput`
   * `polarization_simulator.py: _prepare_input, _postprocess_bsd_impl` → `simMatrix`, `mergeState`, `polDist`
+  * `polarization_simulator.py: _split_odd_even, _postprocess_sv_impl`, `simulator_interface.py:
+    ASimulatorDecorator.evolve / _postprocess_sv` (+ `post_select_statevector`)
+                                                                       → `annotState`, `polSV`, `selectSV`
+  * `polarization.py: convert_polarized_state(inverse=True)` and the `use_symbolic` branch
+                                                                       → `inv2`, `modeBlockX`, `orthExact`
+  * `polarization_simulator.py: set_min_detected_photons_filter`, `simulator_interface.py:
+    set_selection / _postprocess_bsd / probs_svd`, `postselect.py: post_select_distribution`,
+    `statevector.py: filter_distribution_photon_count`               → `Sel`, `innerProbs`, `photonFilter`,
+                                                                         `postSelect`, `polProbs`
 
   Index convention of the doubled space (as in the code): sub-mode `2k` is the horizontal and
   `2k+1` the vertical polarisation of spatial mode `k`.  An index `i : Fin (m*2)` is split as
@@ -23,6 +32,7 @@ import PercevalModel.Model.C01
 import PercevalModel.Found.Fock
 import PercevalModel.Found.Dist
 import PercevalModel.Found.SM
+import PercevalModel.Found.SimSpec
 import Mathlib.LinearAlgebra.Matrix.Notation
 
 open Matrix
@@ -371,5 +381,164 @@ def staleStep (env : Env C I M S O) (isId : M → Bool) (st : Layer M) :
           | .ok w =>
             let st' : Layer M := { st with inner := some w }
             (st', .ok (st'.inner.map fun x => env.simulate x s))
+
+/-! ### the state-vector path: `evolve` (`_postprocess_sv_impl`)
+
+`ASimulatorDecorator.evolve(bs)` = `_postprocess_sv(self._simulator.evolve(self._prepare_input(bs)))`.
+The wrapped simulator returns the state vector on the `2m` sub-modes: the amplitude of `t` is
+`perm(W[t|s]) / √(∏ s! ∏ t!)`.  The square root is external to the model: an entry carries the exact
+un-normalised amplitude `pamp` and the exact squared normalisation `norm2 = ∏ s! ∏ t!`.
+
+`_postprocess_sv_impl` turns every `2m`-mode state `t` into an *annotated* `m`-mode state:
+`s_even = t[0::2]` gets `P:H` on every photon, `s_odd = t[1::2]` gets `P:V`, and the two are
+merged mode by mode.  An annotated state is modelled by the pair (number of `P:H` photons, number
+of `P:V` photons) of every spatial mode — what the native annotated `BasicState` is up to the order
+of the photons inside a mode. -/
+
+/-- annotated `m`-mode state: per spatial mode (photons `P:H`, photons `P:V`) -/
+abbrev AFock := List (ℕ × ℕ)
+
+/-- `s_odd.merge(s_even)` after `inject_annotation`: `(t[2k], t[2k+1])` for every mode `k` -/
+def annotState : List ℕ → AFock
+  | a :: b :: rest => (a, b) :: annotState rest
+  | _ => []
+
+/-- the photon counts of an annotated state (`list(state)`) -/
+def spatialOf (k : AFock) : List ℕ := k.map fun p => p.1 + p.2
+
+/-- one entry of a state vector: key, un-normalised amplitude `perm(W[t|s])`, `∏ s! ∏ t!` -/
+structure SVEntry (K R : Type) where
+  key : K
+  pamp : R
+  norm2 : ℕ
+
+/-- the state vector of the wrapped (spatial) simulation on `N` modes, in the native enumeration
+order (zero amplitudes included) -/
+def spatialSV [CommRing R] {N : ℕ} (U : Matrix (Fin N) (Fin N) R) (s : List ℕ) :
+    List (SVEntry (List ℕ) R) :=
+  (Fock.allStates N s.sum).map fun t => ⟨t, Fock.pamp U s t, Fock.prodFact s * Fock.prodFact t⟩
+
+/-- `_postprocess_sv_impl`: `output += amplitude * annotated(out_state)` for every entry -/
+def polSV [CommRing R] {N : ℕ} (U : Matrix (Fin N) (Fin N) R) (s : List ℕ) :
+    List (SVEntry AFock R) :=
+  (spatialSV U s).map fun e => ⟨annotState e.key, e.pamp, e.norm2⟩
+
+/-- `|amplitude|²` of an entry (exact) -/
+def SVEntry.amp2 {K : Type} (e : SVEntry K GQ) : ℚ := GQ.normSq e.pamp / (e.norm2 : ℚ)
+
+/-- total amplitude stored under a key (`StateVector.__getitem__`; `+=` adds up equal keys) -/
+def svGet [CommRing R] {K : Type} [DecidableEq K] (sv : List (SVEntry K R)) (k : K) : R :=
+  ((sv.filter fun e => e.key = k).map (·.pamp)).sum
+
+/-- drop the listed positions of an annotated state (`BasicState.remove_modes`) -/
+def removeModesA (modes : List ℕ) (k : AFock) : AFock :=
+  (k.zipIdx.filter fun p => !modes.contains p.2).map (·.1)
+
+/-- `post_select_statevector(sv, postselect, heralds, keep_heralds)` as called by
+`_postprocess_sv` of the polarisation layer: keep the entries whose photon counts satisfy heralds
+and post-selection, drop the heralded modes when asked, and re-normalise (the common factor
+`1/√(retained mass)` is external: the retained mass is returned with the entries).  No photon-number
+filter on this path. -/
+def selectSV (c : SimSpec.Cond) (sv : List (SVEntry AFock GQ)) : List (SVEntry AFock GQ) × ℚ :=
+  let kept := sv.filter fun e => SimSpec.logicOk c (spatialOf e.key)
+  (kept.map fun e =>
+      ⟨if c.keepHeralds then e.key else removeModesA (c.heralds.map (·.1)) e.key, e.pamp, e.norm2⟩,
+    (kept.map SVEntry.amp2).sum)
+
+/-! ### `convert_polarized_state(inverse=True)` and `use_symbolic=True`
+
+`inverse=True` replaces every non-trivial 2×2 block by `Matrix.inv()` of it (`np.linalg.inv`,
+sympy's exact inverse in the symbolic branch): adjugate over determinant.  The value of `1/det` is
+an argument (a ring has no division); the driver computes it exactly over `ℚ[i]` (`gqInv`).
+
+`use_symbolic=True`: the Jones vectors are sympy expressions of the stored (floating) angles, the
+orthogonality test is the *exact* `orth == 0`, and the second given vector is used as it is (no
+re-orthonormalisation: that repair is in the numeric branch only). -/
+
+def det2 [CommRing R] (M : Matrix (Fin 2) (Fin 2) R) : R := M 0 0 * M 1 1 - M 0 1 * M 1 0
+
+/-- `Matrix.inv()` of a 2×2 matrix, `dinv` being the value of `1/det` -/
+def inv2 [CommRing R] (dinv : R) (M : Matrix (Fin 2) (Fin 2) R) : Matrix (Fin 2) (Fin 2) R :=
+  !![dinv * M 1 1, -(dinv * M 0 1); -(dinv * M 1 0), dinv * M 0 0]
+
+/-- exact inverse in `ℚ[i]` (`0` for `0`) -/
+def gqInv (a : GQ) : GQ := ⟨a.re / GQ.normSq a, -a.im / GQ.normSq a⟩
+
+/-- the block `convert_polarized_state(state, use_symbolic, inverse)` writes for one mode: nothing
+is written for a mode without photon (the identity stays, also with `inverse=True`) -/
+def modeBlockX [CommRing R] [StarRing R] (fixed inverse : Bool) (ρ : R) (dinv : Matrix (Fin 2) (Fin 2) R → R)
+    (vs : List (R × R)) : Matrix (Fin 2) (Fin 2) R :=
+  match vs with
+  | [] => 1
+  | _ => if inverse then inv2 (dinv (modeBlock fixed ρ vs)) (modeBlock fixed ρ vs) else modeBlock fixed ρ vs
+
+/-- `_is_orthogonal(v1, v2, use_symbolic=True)`: `orth == 0`, exactly -/
+def orthExact [CommRing R] [StarRing R] [DecidableEq R] (v w : R × R) : Bool := decide (inner v w = 0)
+
+/-! ### heralds, post-selection and photon filter on a polarised simulation
+
+`SimulatorFactory.build(processor)` calls `set_selection(min_detected_photons_filter, postselect,
+heralds)` on the *polarisation layer*.  Post-selection and heralds stay in that layer;
+`PolarizationSimulator.set_min_detected_photons_filter(v)` hands `v` to the wrapped simulator and
+(code as it stood) resets the layer's own value to 0 — "photon count is kept, no need to filter
+results in this layer".  The wrapped simulator has no heralds, so its threshold is `v`; the layer's
+threshold (`min_detected_photons_filter` property = own value + Σ heralds) is `Σ heralds` as it
+stood, `v + Σ heralds` after the repair (`fixes/C13-herald-photon-filter.diff`: the layer keeps
+`v`).  The documented threshold is `v + Σ heralds` on the full state. -/
+
+structure Sel where
+  /-- `(mode, expected count)` -/
+  heralds : List (ℕ × ℕ)
+  ps : SimSpec.PS
+  /-- the value given to `min_detected_photons_filter` (non-heralded photons) -/
+  minDet : ℕ
+  keepHeralds : Bool
+
+def Sel.hsum (sel : Sel) : ℕ := (sel.heralds.map (·.2)).sum
+
+/-- the conditioning of the C04 specification this selection denotes -/
+def Sel.cond (sel : Sel) : SimSpec.Cond :=
+  ⟨sel.heralds, sel.ps, sel.minDet + sel.hsum, sel.keepHeralds⟩
+
+/-- `PostSelect.has_condition` -/
+def psHasCondition : SimSpec.PS → Bool
+  | .tt => false
+  | _ => true
+
+/-- the wrapped simulator's `probs_svd` on one Fock input: inputs / outputs with fewer than `v`
+photons are dropped (no herald in that layer), the rest is normalised.
+→ (results, physical_perf, logical_perf) -/
+def innerProbs (v : ℕ) (d0 : Dist.D) : Dist.D × ℚ × ℚ :=
+  let r := Dist.restrict (fun t => decide (v ≤ t.sum)) d0
+  (Dist.normalize r, Dist.mass r, if r.isEmpty then 0 else 1)
+
+/-- `filter_distribution_photon_count(bsd, T)` → (normalised filtered distribution, probability kept) -/
+def photonFilter (T : ℕ) (d : Dist.D) : Dist.D × ℚ :=
+  if T = 0 then (d, 1)
+  else
+    let r := Dist.restrict (fun t => decide (T ≤ t.sum)) d
+    (Dist.normalize r, Dist.mass r)
+
+/-- `post_select_distribution(bsd, postselect, heralds, keep_heralds)` → (distribution, logical perf) -/
+def postSelect (c : SimSpec.Cond) (d : Dist.D) : Dist.D × ℚ :=
+  if !psHasCondition c.ps && c.heralds.isEmpty then (Dist.normalize d, 1)
+  else
+    (Dist.normalize (Dist.mapKeys (SimSpec.reported c) (Dist.restrict (SimSpec.logicOk c) d)),
+      1 - Dist.mass (Dist.restrict (fun t => !SimSpec.logicOk c t) d))
+
+/-- the threshold of the polarisation layer's own photon filter -/
+def layerThreshold (fixed : Bool) (sel : Sel) : ℕ :=
+  if fixed then sel.minDet + sel.hsum else sel.hsum
+
+/-- `PolarizationSimulator.probs_svd` on one polarised Fock input, `d0` being the full distribution
+of the wrapped simulation on the `2m` sub-modes: wrapped filter, merge of the sub-modes
+(`_postprocess_bsd_impl`), the layer's photon filter, post-selection; the performances are
+multiplied.  → (results, physical_perf, logical_perf) -/
+def polProbs (fixed : Bool) (sel : Sel) (d0 : Dist.D) : Dist.D × ℚ × ℚ :=
+  let i := innerProbs sel.minDet d0
+  let d2 := Dist.mapKeys mergeState i.1
+  let f := photonFilter (layerThreshold fixed sel) d2
+  let p := postSelect sel.cond f.1
+  (p.1, i.2.1 * f.2, i.2.2 * p.2)
 
 end PM.C13
